@@ -1000,6 +1000,42 @@ pub fn run(opts: &Opts) -> Report {
             }
         }
     }
+    // 4b. the same instant handed over as a chrono value with a fixed offset is the same timestamp (the conversion
+    // converts the instant, it does not relabel the local fields), also through the accessors
+    {
+        let mut insts: Vec<i128> = bounds.iter().filter(|(_, t)| *t == "epoch" || *t == "year-boundary").map(|(n, _)| *n).take(12).collect();
+        insts.extend([1_704_877_065_123_000_000i128, day_start(2024, 3, 10) + 9 * 3600 * NS + 1800 * NS, day_start(2023, 12, 31) + 23 * 3600 * NS]);
+        for _ in 0..(if th { 2000 } else { 60 }) {
+            insts.push(random_instant(&mut rng));
+        }
+        for n in insts {
+            let t = match ts_of(n) {
+                Some(t) => t,
+                None => continue,
+            };
+            for off in [0i32, -8 * 3600, 5 * 3600 + 45 * 60, 14 * 3600, -12 * 3600, 1, -86_399] {
+                let fo = match chrono::FixedOffset::east_opt(off) {
+                    Some(f) => f,
+                    None => continue,
+                };
+                let local = t.with_timezone(&fo);
+                // (instants within a day of chrono's range edges have no local form at every offset)
+                if n.abs() > 8_000_000_000_000_000_000_000i128 {
+                    continue;
+                }
+                let v = guarded(move || show_val(&CelValue::from(local)));
+                st.rep.count(Some(&format!("from-fixed-offset|{}|{}", n, off)));
+                st.rep.bump("conversion:DateTime<FixedOffset>");
+                if v != show_val(&tsv(n)) {
+                    st.rep.oracle_fail(&format!("CelValue::from(ts:{} at offset {} s)", n, off), &v, &show_val(&tsv(n)), "a chrono value with a fixed offset converts to the same instant");
+                }
+                let got = st.run.eval("[t == u, t.getHours() == u.getHours(), t.getDayOfYear('UTC') == u.getDayOfYear('UTC'), t - u == duration('0s')]", &[("t", CelValue::from(local)), ("u", tsv(n))]);
+                if got != "l:4 b:1 b:1 b:1 b:1" {
+                    st.rep.oracle_fail(&format!("t = CelValue::from(ts:{} at offset {} s), u = the same instant in UTC: [t == u, t.getHours() == u.getHours(), ...]", n, off), &got, "l:4 b:1 b:1 b:1 b:1", "a chrono value with a fixed offset converts to the same instant");
+                }
+            }
+        }
+    }
     // 5. invalid zone names
     let mut bad: Vec<String> = ["", " ", "utc", "Utc", "UTC ", " UTC", "UTC+1", "+01:00", "Z", "GMT+25", "Nowhere/City", "Europe", "Europe/", "/Europe/Paris", "europe/paris", "EUROPE/PARIS", "Europe/Paris\0", "Europe\\Paris", "US/pacific", "America/New York", "PST8PDT8", "local", "Local", "1", "null", "Etc/GMT+15", "\u{212a}", "Europe/Zürich", "Asia/Calcutta2"]
         .iter()
